@@ -699,9 +699,10 @@ func HashSetIndex(vm *Thread, set *HashSetOfValue, val value.Value) (int, value.
 		}
 
 		// when we reach the start index
-		// all slots are checked
+		// all slots are checked:
+		// a deleted slot seen on the way is still free
 		if index == startIndex {
-			return -1, value.Undefined
+			return deletedIndex, value.Undefined
 		}
 	}
 }
